@@ -297,6 +297,74 @@ DETAIL["c08_corpus"] = _det
 CONDITIONS.append({"fn": "c08_corpus", "quick": 90, "thorough": 200, "sel_only": True,
                    "bounds": _corpus.BOUNDS + "; loop 10**6, output 10**7, namespace 10**7 (real sys.getsizeof), depth 30"})
 
+
+# ---- text that is awkward to encode or count (lone surrogates, NUL, CR LF, astral and multi-byte characters, separators): an
+# output limit still only aborts, with OutputStreamLimitError, or leaves the unlimited output unchanged ----------------------
+U_TEXT = ["\ud800", "a\udfffb", "\x00", "\u00e9\ud83d", "\r\n", "\U0001f600", "\u2028x", "\r", "plain", "\udc80\udcff"]
+U_SRC = ["{{ v }}", "{% capture c %}{{ v }}{% endcapture %}{{ c }}{{ c | size }}", "{% for i in (1..2) %}{% ifchanged %}{{ v }}{% endifchanged %}{% endfor %}",
+         "{% extends 'ub' %}{% block x %}{{ block.super }}{{ v }}{% endblock %}", "lit \ud800 {{ v }} \udfff", "{% render 'up', v: v %}{% include 'up' %}",
+         "{{ v | append: v | upcase }}{% echo v %}", "{% cycle v, 'a' %}{% cycle v, 'a' %}"]
+U_LIMITS = (0, 1, 2, 3, 4, 5, 8, 13, 21, 10 ** 7)
+
+
+class _UEnv(Environment):
+    output_stream_limit = None
+
+
+_U_ENV = _UEnv(extra=True, loader=__import__("liquid").CachingDictLoader({"ub": "[{% block x %}b{{ v }}{% endblock %}]", "up": "<{{ v }}>"}, auto_reload=False))
+_U_T = {}
+
+
+def unusual_text_sweep(si, use_async):
+    if si not in _U_T:
+        _U_T[si] = _U_ENV.from_string(U_SRC[si])
+    t = _U_T[si]
+    bad = []
+
+    def run(v):
+        try:
+            if use_async:
+                from vf.hx import drive
+                return ("ok", drive(t.render_async(v=v)))
+            return ("ok", t.render(v=v))
+        except LiquidError as e:
+            return ("liquid", type(e).__name__)
+        except Exception as e:
+            return ("other", type(e).__name__)
+    for v in U_TEXT:
+        _U_ENV.output_stream_limit = None
+        full = run(v)
+        succeeded = False
+        for L in U_LIMITS:
+            _U_ENV.output_stream_limit = L
+            try:
+                r = run(v)
+            finally:
+                _U_ENV.output_stream_limit = None
+            if r != full and r != ("liquid", "OutputStreamLimitError"):
+                bad.append({"text": ascii(v), "limit": L, "limited": ascii(r), "unlimited": ascii(full)})
+            elif succeeded and r != full:
+                bad.append({"text": ascii(v), "limit": L, "limited": ascii(r), "but a smaller limit gave": ascii(full)})
+            succeeded = succeeded or r == full
+    return bad
+
+
+def c08_unusual_text(si: int, use_async: bool) -> bool:
+    """
+    pre: 0 <= si <= 7
+    post: _
+    """
+    if excluded("c08_unusual_text", locals()):
+        return True
+    from vf.hx import cbool, cint, untraced
+    si, use_async = cint(si, 0, 7), cbool(use_async)
+    return finish(untraced(lambda: not unusual_text_sweep(si, use_async)))
+
+
+DETAIL["c08_unusual_text"] = lambda si, use_async: {"template": ascii(U_SRC[si]), "failing": unusual_text_sweep(si, use_async)[:3]}
+CONDITIONS.append({"fn": "c08_unusual_text", "quick": 40, "thorough": 80, "sel_only": True,
+                   "bounds": "8 templates x 10 texts (lone surrogates, NUL, CR, LF, astral, separators) x 10 output limits, sync and async"})
+
 ASSUMPTIONS = [
     "limits are class attributes of a harness Environment subclass, set per run; data sizes, recursion depth m and both limits are symbolic",
     "sys.getsizeof in liquid.context is replaced by a deterministic size function (str: 1 + len, other: 1)",
